@@ -7,8 +7,8 @@
 //! is dropped after k values, values left behind), MAYV_DROPSPIN=n (a sender passes up to n schedule
 //! points between its last send and its drop), MAYV_HOLD=1 (a sender stays alive until everything
 //! sent so far was received), MAYV_AGAIN=1 (after Disconnected the receiver calls
-//! again), MAYV_SCHED=narrow|wide (schedule points: the sync layer only = atomic queue operations, or
-//! every hooked access incl. the queue internals).
+//! again), MAYV_SCHED=narrow|wide|mpmc (schedule points: the sync layer only = atomic queue operations, every
+//! hooked access incl. the queue internals, or src/sync/mpmc.rs only = atomic semaphore calls).
 //!
 //! Oracles on the implementation (independent of the Coq models); payloads are tagged (handle, seq)
 //! and count their own drops:
@@ -26,7 +26,7 @@
 //!
 //! Trace records for the acceptors (kind, obj, val): chan.new; send.call(h, seq) send.ret(h, ok);
 //! clone.call(h, newh) clone.ret(h, newh); dropc.call(h) dropc.ret(h); try.call try.ret(k, v);
-//! recv.call(co) recv.ret(k, v); rt.call(co, dur) rt.ret(k, v); dropp.call dropp.ret;
+//! recv.call(co | r<<1) recv.ret(k, v); rt.call(co | r<<1, dur) rt.ret(k, v); dropp.call(r<<1) dropp.ret; clonerx.call(r, r2) clonerx.ret;
 //! k: 0 Ok, 1 Empty, 2 Disconnected, 4 Timeout; v = h * 1000 + seq.
 use mayv::*;
 use std::alloc::{GlobalAlloc, Layout, System};
@@ -316,9 +316,11 @@ fn disconnected(c: &Ctx, single: bool, mine: u64) {
     }
 }
 
-fn receiver(rx: Rx, plan: RxPlan, seed: u64) {
+fn receiver(k: u64, rx: Rx, plan: RxPlan, seed: u64) {
     let c = mayv::ctx();
     let co = may::coroutine::is_coroutine() as u64;
+    // receiver handle in bits 1.. of the call events (mpmc acceptor); bit 0: coroutine
+    let kk = k << 1;
     let mut r = seed | 1;
     let mut last = [-1i64; MAXH];
     let mut mine = 0u64;
@@ -338,7 +340,7 @@ fn receiver(rx: Rx, plan: RxPlan, seed: u64) {
         // outcome: 0 value, 1 empty / timeout (try again), 2 disconnected
         let out = match m {
             "try" => {
-                c.log("try.call", 0, 0, None);
+                c.log("try.call", kk, 0, None);
                 let x = rx.try_recv();
                 match x {
                     Ok(p) => {
@@ -358,7 +360,7 @@ fn receiver(rx: Rx, plan: RxPlan, seed: u64) {
             }
             "timed" => {
                 let d = [0u64, 1_000_000, 3_000_000, 50_000][(xs(&mut r) % 4) as usize];
-                c.log("rt.call", co, d, None);
+                c.log("rt.call", co | kk, d, None);
                 let x = rx.recv_timeout(Duration::from_nanos(d));
                 match x {
                     Ok(p) => {
@@ -377,7 +379,7 @@ fn receiver(rx: Rx, plan: RxPlan, seed: u64) {
                 }
             }
             _ => {
-                c.log("recv.call", co, 0, None);
+                c.log("recv.call", co | kk, 0, None);
                 let x = if m == "iter" { rx.iter_next().ok_or(()) } else { rx.recv() };
                 match x {
                     Ok(p) => {
@@ -427,7 +429,7 @@ fn receiver(rx: Rx, plan: RxPlan, seed: u64) {
         }
         *SNAP.lock().unwrap() = before;
     }
-    c.log("dropp.call", 0, 0, None);
+    c.log("dropp.call", kk, 0, None);
     drop(rx);
     c.log("dropp.ret", 0, 0, None);
     if RX_UPPER.fetch_sub(1, SeqCst) == 1 {
@@ -442,7 +444,10 @@ fn receiver(rx: Rx, plan: RxPlan, seed: u64) {
 
 fn main() {
     let mut cfg = Config::from_env();
-    if envs("MAYV_SCHED", "narrow") == "narrow" {
+    if envs("MAYV_SCHED", "narrow") == "mpmc" {
+        // only the channel's own accesses are schedule points: every Semphore call is atomic up to its park
+        cfg.sched_files = vec!["src/sync/mpmc.rs"];
+    } else if envs("MAYV_SCHED", "narrow") == "narrow" {
         cfg.sched_files = vec![
             "src/sync/mpsc.rs",
             "src/sync/spsc.rs",
@@ -500,11 +505,14 @@ fn main() {
         };
         // receivers first (mpmc: clones of the Receiver made by main)
         let mut rxs = vec![];
-        for _ in 1..nrecv {
+        for k in 1..nrecv {
             if let Rx::Mpmc(r) = &rx0 {
                 RX_UPPER.fetch_add(1, SeqCst);
                 RX_LOWER.fetch_add(1, SeqCst);
-                rxs.push(Rx::Mpmc(r.clone()));
+                ctx.log("clonerx.call", 0, k, None);
+                let r2 = r.clone();
+                ctx.log("clonerx.ret", 0, k, None);
+                rxs.push(Rx::Mpmc(r2));
             }
         }
         rxs.insert(0, rx0);
@@ -519,7 +527,7 @@ fn main() {
             let plan = RxPlan { mode: mode.clone(), drop_after: rxdrop, again, single: nrecv == 1 };
             let seed = ctx.rand();
             let in_co = pick(ctx);
-            start(format!("r{k}"), in_co, Box::new(move || receiver(rx, plan, seed)));
+            start(format!("r{k}"), in_co, Box::new(move || receiver(k as u64, rx, plan, seed)));
         }
         for (h, tx) in txs {
             let seed = ctx.rand();
